@@ -339,6 +339,29 @@ def run_matrix(case, st):
                     # the supplier's object is the application's: serving it must not change it, and a second (and a
                     # half-read, abandoned) upload must give the same bytes
                     try:
+                        if len(want) > 7 and live is not None:
+                            # the application changes its object between two segment requests: the transfer serves
+                            # the value (and the size) it announced
+                            sim.send_strict(bytes([0x40, 0x00, 0x21, key[1], 0, 0, 0, 0]))
+                            parts, tg = [], 0
+                            for k_ in range(len(want) // 7 + 2):
+                                r_ = sim.send_strict(bytes([0x60 | tg]) + bytes(7))
+                                if len(r_) != 1 or r_[0][0] >> 5 != 0:
+                                    parts = None
+                                    break
+                                parts.append(r_[0][1:8 - ((r_[0][0] >> 1) & 7)])
+                                if k_ == 0:
+                                    live[:3] = b"\xAA\xBB\xCC"
+                                    live.extend(b"appended")
+                                if r_[0][0] & 1:
+                                    break
+                                tg ^= 0x10
+                            torn = None if parts is None else b"".join(parts)
+                            live[:] = want
+                            if torn != want:
+                                st.violation(f"C02:matrix:value-changed-during-upload:{sigk}", rc, want.hex()[:80],
+                                             "transfer broke off" if torn is None else torn.hex()[:80])
+                                continue
                         if len(want) > 7:
                             sim.send_strict(bytes([0x40, 0x00, 0x21, key[1], 0, 0, 0, 0]))
                             sim.send_strict(bytes([0x60]) + bytes(7))      # first segment only, then a new transfer
